@@ -201,6 +201,14 @@ func c01Units(w *World, r *Report) {
 					case "math.Floor", "math.Ceil", "math.Round", "math.Trunc", "math.RoundToEven":
 						u = unit(x.Call.Args[0], d+1)
 					}
+					// a rounding helper of the package (float64 → float64, one argument): the unit goes through
+					if sc.Pkg == f.Pkg && len(x.Call.Args) == 1 && sc.Signature.Results().Len() == 1 {
+						if ab, okA := x.Call.Args[0].Type().Underlying().(*types.Basic); okA && ab.Kind() == types.Float64 {
+							if rb, okR := sc.Signature.Results().At(0).Type().Underlying().(*types.Basic); okR && rb.Kind() == types.Float64 {
+								u = unit(x.Call.Args[0], d+1)
+							}
+						}
+					}
 					switch sc.String() {
 					case "strings.Index", "strings.LastIndex", "strings.IndexByte", "strings.IndexRune", "strings.IndexAny", "strings.LastIndexByte", "strings.LastIndexAny", "strings.IndexFunc":
 						u = unitBytes
